@@ -166,6 +166,13 @@ class ClosureV:
 
 
 @dataclass
+class BoundGetV:
+    """xs.__getitem__ / d.get / d.__getitem__ taken as a value"""
+    obj: Any
+    default_none: bool = False
+
+
+@dataclass
 class ItemGetterV:
     """operator.itemgetter(k1, k2, ...) with constant keys"""
     keys: List[Any]
@@ -422,12 +429,17 @@ class Interp:
                 if isinstance(tgt, ast.Name) and n.value is not None:
                     st = State()
                     st.env = dict(env)
+                    # a table built once at import from a small range is followed element by element
+                    saved_u, saved_U = self.unroll_ranges, self.UNROLL
+                    self.unroll_ranges = self.UNROLL = 64
                     try:
                         v = self.eval(n.value, st, rel)
                     except _Raise:
                         v = Unknown("module constant raises")
                     except (_Fork, Budget, _Unmodelled, RecursionError):
                         v = Unknown("module-level value not modelled")
+                    finally:
+                        self.unroll_ranges, self.UNROLL = saved_u, saved_U
                     if isinstance(v, FloatV):
                         v = FloatV(("name", f"{rel}:{tgt.id}", v.expr))
                     env[tgt.id] = v
@@ -685,8 +697,14 @@ class Interp:
             base = self.eval(target.value, state, rel)
             idx = self.eval(target.slice, state, rel)
             if isinstance(base, ListV):
-                base.stores.append((idx, v, state.binders))
                 state.effects.append(("store", (base, idx, v, state.binders)))
+                if base.alloc_len is None and not base.stores and not base.unknown and not state.binders and isinstance(idx, Lin) \
+                        and idx.is_const() and all(not sg.binders for sg in base.segs):
+                    if -len(base.segs) <= idx.const < len(base.segs):
+                        base.segs[idx.const] = Seg(v)
+                        return
+                    raise _Raise(ExcV("IndexError", "list assignment index out of range"), state)
+                base.stores.append((idx, v, state.binders))
                 return
             if isinstance(base, MapV):
                 key = self.key_for(base, idx)
@@ -886,6 +904,10 @@ class Interp:
                     for k in assigned:
                         v_after = s2.env.get(k)
                         if isinstance(v_after, (ListV,)):
+                            if v_after is not before.get(k) and k not in _target_names(st.target) and _read_before_write(st.body, k):
+                                # the name is re-bound to a NEW list computed from the old one (a frontier that grows per iteration):
+                                # that is a loop-carried value like any other, not an append the summary can count
+                                s2.env[k] = ListV([], f"list {k} re-built from itself in a summarised loop")
                             continue
                         if k in _target_names(st.target):
                             continue
@@ -901,6 +923,7 @@ class Interp:
                 v.unknown = why
 
     def concrete_items(self, it: Any) -> Optional[List[Any]]:
+        it = self.settle(it)
         if isinstance(it, RangeV) and it.count is not None:
             if it.count <= min(self.UNROLL, max(1, self.unroll_ranges)):
                 return [it.lo + it.step * i for i in range(it.count)]
@@ -933,6 +956,7 @@ class Interp:
         return None
 
     def families(self, it: Any) -> Optional[List[Tuple[Any, List[Tuple[Sym, int]]]]]:
+        it = self.settle(it)
         if isinstance(it, ListV) and it.unordered and len(it.segs) > 1:
             return None
         if isinstance(it, RangeV) and it.count is not None:
@@ -1561,10 +1585,14 @@ class Interp:
             return TupleV(list(l.items) + list(r.items))
         if isinstance(l, ListV) and isinstance(r, Lin) and isinstance(op, ast.Mult):
             # [x] * n
-            if len(l.segs) == 1 and not l.segs[0].binders:
+            if len(l.segs) == 1 and not l.segs[0].binders and l.alloc_len is None and not l.stores and not l.unknown:
                 return ListV([], None, [], r, l.segs[0].elem)
+            l = self.settle(l)
+            if r.is_const() and 0 <= r.const <= 64 and not l.unknown and l.alloc_len is None and not l.stores and not l.unordered:
+                return ListV([Seg(sg.elem, sg.binders) for _ in range(r.const) for sg in l.segs])
             return Unknown("list repetition")
         if isinstance(l, ListV) and isinstance(r, ListV) and isinstance(op, ast.Add):
+            l, r = self.settle(l), self.settle(r)
             if l.unknown or r.unknown:
                 return ListV([], l.unknown or r.unknown)
             return ListV(list(l.segs) + list(r.segs))
@@ -1679,6 +1707,10 @@ class Interp:
             return Unknown("list index")
         if isinstance(base, ListV) and base.unordered:
             return Unknown("subscript of a set")
+        if isinstance(base, ListV) and (base.alloc_len is not None or base.stores):
+            base = self.settle(base)
+            if base.unknown:
+                return Unknown("element of a list whose stores are not followed")
         if isinstance(base, ListV):
             if isinstance(idx, Lin) and idx.is_const() and not base.unknown and all(not s.binders for s in base.segs):
                 i = idx.const
@@ -1750,7 +1782,42 @@ class Interp:
             return False
         return None
 
+    @staticmethod
+    def settle(v: Any) -> Any:
+        """a list built as `[x] * n` plus index stores, or a list with pending stores, read back as a whole: the element-wise
+        content when every store has a constant index, otherwise a list of unknown content (never the bare segments)"""
+        if not isinstance(v, ListV) or (v.alloc_len is None and not v.stores) or v.unknown:
+            return v
+        if v.alloc_len is not None:
+            if not v.alloc_len.is_const() or v.alloc_len.const > 1024 or v.segs:
+                return ListV([], "allocated list whose length or content is not followed element by element")
+            out = [v.alloc_elem] * max(0, v.alloc_len.const)
+        else:
+            if any(sg.binders for sg in v.segs):
+                return ListV([], "summarised list with element stores")
+            out = [sg.elem for sg in v.segs]
+        for idx, val, binders in v.stores:
+            if binders or not isinstance(idx, Lin) or not idx.is_const() or not (-len(out) <= idx.const < len(out)):
+                return ListV([], "list with stores whose position is not known")
+            out[idx.const] = val
+        return ListV([Seg(x) for x in out])
+
+    def order_lt(self, a: Any, b: Any) -> Optional[bool]:
+        """a < b for integers and tuples of them (lexicographic); None when not decided"""
+        if isinstance(a, Lin) and isinstance(b, Lin):
+            return compare(a, "<", b)
+        if isinstance(a, TupleV) and isinstance(b, TupleV):
+            for x, y in zip(a.items, b.items):
+                eq = self.value_eq(x, y)
+                if eq is None:
+                    return None
+                if not eq:
+                    return self.order_lt(x, y)
+            return len(a.items) < len(b.items)
+        return None
+
     def plain_items(self, xs: Any) -> Optional[List[Any]]:
+        xs = self.settle(xs)
         """the elements of a list / set / tuple that is known element by element"""
         if isinstance(xs, TupleV):
             return list(xs.items)
@@ -1963,6 +2030,8 @@ class Interp:
         return Unknown(f"slice of {type(base).__name__}")
 
     def attribute(self, base: Any, attr: str, state: State, node: ast.AST) -> Any:
+        if attr == "__getitem__" and isinstance(base, (ListV, MapV, TupleV, CellV)):
+            return BoundGetV(base)
         if isinstance(base, OriginV):
             if attr == "id":
                 return base.idx
@@ -2098,6 +2167,12 @@ class Interp:
                     recv.segs.append(Seg(args[0], state.binders))
                     state.effects.append(("append", (recv, args[0], state.binders)))
                     return NONE
+                if f.attr == "extend" and len(args) == 1 and isinstance(args[0], TupleV):
+                    args = [ListV([Seg(x) for x in args[0].items])]
+                if f.attr == "extend" and len(args) == 1 and isinstance(args[0], MapV) and args[0].name is None and not args[0].unknown:
+                    args = [ListV([Seg(self.thaw_key(k)) for k in args[0].entries])]
+                if f.attr == "extend" and len(args) == 1 and isinstance(args[0], ListV):
+                    args = [self.settle(args[0])]
                 if f.attr == "extend" and len(args) == 1 and isinstance(args[0], ListV) and not args[0].unknown:
                     for s in args[0].segs:
                         recv.segs.append(Seg(s.elem, state.binders + s.binders))
@@ -2114,7 +2189,8 @@ class Interp:
                         for el, bs in fams:
                             recv.segs.append(Seg(el, state.binders + tuple(bs)))
                         return NONE
-                recv.unknown = f"list method .{f.attr} not modelled"
+                if not recv.unknown:
+                    recv.unknown = f"list method .{f.attr} not modelled"
                 return Unknown(f"list method .{f.attr}")
             if isinstance(recv, MapV):
                 return self.map_method(recv, f.attr, args, state, e)
@@ -2148,6 +2224,8 @@ class Interp:
         if isinstance(fn, ItemGetterV) and len(args) == 1 and not kwargs:
             got = [self.subscript(args[0], k, state, e, rel) for k in fn.keys]
             return got[0] if len(got) == 1 else TupleV(got)
+        if isinstance(fn, BoundGetV) and len(args) == 1 and not kwargs:
+            return self.subscript(fn.obj, args[0], state, e, rel)
         if isinstance(fn, ClosureV):
             if id(e) in state.call_memo:
                 v = state.call_memo.pop(id(e))
@@ -2193,6 +2271,8 @@ class Interp:
         if isinstance(fn, ItemGetterV) and len(args) == 1:
             got = [self.subscript(args[0], k, state, node, rel) for k in fn.keys]
             return got[0] if len(got) == 1 else TupleV(got)
+        if isinstance(fn, BoundGetV) and len(args) == 1:
+            return self.subscript(fn.obj, args[0], state, node, rel)
         if isinstance(fn, ClosureV):
             nm_ = getattr(fn.node, "name", "<lambda>")
             outs = self.run_node(fn.node, fn.rel, nm_, list(args), state, {}, dict(fn.frame))
@@ -2240,6 +2320,21 @@ class Interp:
                     return Unknown("chain over a sequence that is not known element by element")
                 out_.extend(Seg(x) for x in its)
             return ListV(out_)
+        if fn.module == "<collections>" and fn.name == "Counter" and len(args) <= 1 and not kwargs:
+            m_ = MapV({}, factory="int")
+            if args:
+                xs = args[0]
+                if isinstance(xs, GenV):
+                    xs = self.materialise(xs, state)
+                its = self.plain_items(xs)
+                if its is None or (isinstance(xs, ListV) and xs.unordered and len(its) > 1):
+                    return Unknown("Counter over a sequence that is not known element by element")
+                for x in its:
+                    k_ = self.key_for(m_, x)
+                    if k_ is _MISSING:
+                        return Unknown("Counter: equality of two elements not decided")
+                    m_.entries[k_] = m_.entries.get(k_, Lin(0)) + 1
+            return m_
         if fn.module == "<collections>" and fn.name == "defaultdict" and len(args) == 1 and not kwargs and isinstance(args[0], FuncRef) \
                 and args[0].module == "<builtin>" and args[0].name in ("list", "set", "int"):
             return MapV({}, factory=args[0].name)
@@ -2294,6 +2389,8 @@ class Interp:
         raise _Fork([(o.state, node, o.value if o.kind == "return" else _RaiseMarker(o.value)) for o in outs])
 
     def builtin(self, name: str, args: List[Any], kwargs: Dict[str, Any], state: State, node: ast.Call) -> Any:
+        if name in ("list", "tuple", "set", "frozenset", "sorted", "sum", "max", "min", "iter", "enumerate", "reversed", "any", "all", "zip") and args:
+            args = [self.settle(a) for a in args]
         if name == "A5Cell":
             return CellV(dict(kwargs))
         if name in ("max", "min") and len(args) == 1 and set(kwargs) <= {"default"}:
@@ -2358,6 +2455,11 @@ class Interp:
                         n = max(0, -(-span.const // args[2].const))
                         return RangeV(args[0], args[1], args[2].const, n)
             return Unknown("range")
+        if name in ("sorted", "tuple", "set", "frozenset") and len(args) == 1 and isinstance(args[0], RangeV) and args[0].count is None \
+                and args[0].lo.is_const() and args[0].hi.is_const() and args[0].hi.const - args[0].lo.const <= 64 and state.binders == ():
+            args = [ListV([Seg(Lin(i_)) for i_ in range(args[0].lo.const, args[0].hi.const, args[0].step)])]
+        if name == "sorted" and len(args) == 1 and isinstance(args[0], GenV):
+            args = [self.materialise(args[0], state)]
         if name in ("set", "frozenset") and not args and not kwargs:
             return ListV([], unordered=True)
         if name == "dict" and not args and not kwargs:
@@ -2384,17 +2486,17 @@ class Interp:
                     uniq.append(sg.elem)
             return ListV([Seg(u) for u in uniq], unordered=True)
         if name == "sorted" and len(args) == 1 and isinstance(args[0], ListV) and not args[0].unknown and not args[0].stores \
-                and all(not sg.binders and isinstance(sg.elem, Lin) for sg in args[0].segs) and set(kwargs) <= {"key", "reverse"}:
+                and all(not sg.binders and isinstance(sg.elem, (Lin, TupleV)) for sg in args[0].segs) and set(kwargs) <= {"key", "reverse"}:
             elems = [sg.elem for sg in args[0].segs]
             keys = elems
             kf = kwargs.get("key")
             if kf is not None:
-                if not isinstance(kf, (FuncRef, ClosureV, ItemGetterV)):
+                if not isinstance(kf, (FuncRef, ClosureV, ItemGetterV, BoundGetV)):
                     return Unknown("sorted with a key that is not a function of the repository")
                 keys = []
                 for x in elems:
                     kv = self.apply_value(kf, [x], state, node, "")
-                    if not isinstance(kv, Lin):
+                    if not isinstance(kv, (Lin, TupleV)):
                         return Unknown("sort key not determined")
                     keys.append(kv)
             rev = kwargs.get("reverse", False)
@@ -2404,7 +2506,7 @@ class Interp:
             for i_, k_ in enumerate(keys):        # stable insertion sort on decided comparisons
                 pos = len(order)
                 for j_, o_ in enumerate(order):
-                    lt = compare(k_, "<", keys[o_]) if not rev else compare(k_, ">", keys[o_])
+                    lt = self.order_lt(k_, keys[o_]) if not rev else self.order_lt(keys[o_], k_)
                     if lt is None:
                         return Unknown("sorted: order of two elements not decided")
                     if lt:
